@@ -16,9 +16,10 @@ def run(ctx):
                gates=True, trace_targets=[['Poseidon1'], ['Poseidon2']],
                corr_runs=[('corrposeidon', ['-seed', s, '-n', n]) for s in seeds],
                search_runs=[('corrposeidon', ['-seed', ctx.seed + 50 + i, '-n', 20000]) for i in range(2)],
-               corr_name='poseidon', driver_args=['corr', 'poseidon'],
+               corr_name='poseidon', driver_args=['corr', 'poseidon'], const={'tables': 'ok'},
                what='Poseidon gadget (test engine + R1CS) with iden3 / textbook output', spec='Lean reference Poseidon (proved equal to the gadget)',
                assumptions=[
+                   "generator: besides edge/sparse/dense/random values, a fifth of the cases are steered (by inverting the first one or two rounds with the tables) so that state elements entering the first or second MDS layer are 0, 1 or p-1; after all evaluations the parameter tables must be unchanged and Poseidon2(1,2) is re-evaluated in the engine and a freshly compiled R1CS",
                    "gate table for Add/Mul (no hints are involved); the link from the expanded trace to the Sat semantics is proved (poseidon2_trace_iff): no parametricity assumption",
                    "the reference tables in Smtb/Circuit/PoseidonTables.lean are a snapshot; T-trace compares every constant with /repo's tables (each appears as an operand in the expanded trace); 'equals circomlib/iden3' is validated against github.com/iden3/go-iden3-crypto/poseidon and two published vectors (kernel-checked), not proved",
                ],
